@@ -1,5 +1,88 @@
-// slice `depot_ops`: the depot-only operations of a schedule (solution/src/schedule/modifications.rs), verbatim bodies
-// (header: see the end of development; filled in below)
+// slice `depot_ops`: the depot-only operations of a schedule (solution/src/schedule/modifications.rs), verbatim bodies of
+//   (1) Schedule::reassign_end_depots_greedily, (2) Schedule::recompute_transitions_for and its worker
+//   Schedule::recompute_transitions_and_violation_fast, (3) Schedule::improve_depots and Schedule::improve_depots_of_tour.
+//
+//   C13  "depot-only operations change no activity, and all other vehicles' tours, formations elsewhere and the input schedule
+//        itself stay untouched":
+//        reassign_end_depots_greedily: every vehicle's new tour is the old one with (possibly) another END depot node (a member
+//        of network.end_depot_nodes) -- start depot and all activities unchanged, in order (only_end_depot_differs), a valid
+//        tour with exact caches; Err iff there is a vehicle and the network has no end depot node;
+//        improve_depots_of_tour / improve_depots: a listed vehicle's new tour has the old inner nodes in the same order, only the
+//        first / last node may differ (depots_replaced, same_activities; the new depot nodes are members of the network's
+//        start / end depot node lists); vehicles that are not listed keep their tours;
+//        all three (and recompute_transitions_for): vehicles, dummy tours, both listings, train formations, unserved passengers,
+//        the counter and the network are the input's; recompute_transitions_for also keeps tours, depot usage and costs.
+//   C09  "cached aggregates equal recomputation": new costs = old costs - sum of the old + sum of the new tour costs of the
+//        touched vehicles; the depot usage table is exact (usage_exact) for the new tours given it was exact before -- for
+//        improve_depots this is proved for the code that first takes ALL listed vehicles out of the table and then puts them
+//        back one by one: loop invariant usage_partial = "improve_depots_of_tour is consulted with a table that is exact for all
+//        unlisted vehicles and for the listed vehicles processed so far (at their NEW depots) and does not contain the listed
+//        vehicles still to come";  maintenance violation / rotation cycles: recompute_transitions_and_violation_fast puts
+//        Transition::new_fast(id list of the type, the given tours) under every listed type, leaves the other types alone and
+//        keeps `maintenance_violation == sum over all types` (rc_post; duplicates in the type list are harmless); improve_depots
+//        (Some) has the postcondition of update_transitions_and_violation_fast (upd_post, text of slices/sched_guard.vs).
+//   C02 / C10  depot limits: NOTHING is claimed.  reassign_end_depots_greedily documents "Capacties of depots are ignored";
+//        improve_depots asks find_best_start_depot_for_spawning (a stub here: result is a member of start_depot_nodes) with the
+//        partial table described above, end depots are chosen without looking at capacities.
+//
+// ASSUMPTIONS introduced / used by this slice:
+//   A-stub   not verified in any slice, contract written from the body / doc comment:
+//            Transition::new_fast  (result = uninterpreted spec_new_fast(ids, tours, network); requires every listed id to have a
+//                 tour; NOTHING else is known about the rebuilt transition -- in particular NOT that it is consistent with the
+//                 tours (C15) or holds exactly the listed vehicles (C10));
+//            Tour::last_non_depot / Tour::first_non_depot  (is_last_non_depot / is_first_non_depot: the doc comment);
+//            Network::end_depots_sorted_by_distance_from  (same length and members as end_depot_nodes; order NOT specified);
+//            Schedule::find_best_start_depot_for_spawning  (text of slices/spawn_vehicle.vs: member of start_depot_nodes);
+//            Schedule::find_best_end_depot_for_despawning  (text of slices/spawn_vehicle.vs + NEW clause: Ok iff end_depot_nodes is
+//                 not empty -- needed for the `.unwrap()` in improve_depots_of_tour; verifying the 12-line body here would be cheap
+//                 but would make the weaker stub of slices/spawn_vehicle.vs differ from a verified contract)
+//   A-iter   Schedule::vehicles_iter_all = sched_vehicles (uninterpreted order; text of slices/reassign.vs), VehicleTypes::iter =
+//            ids_sorted (text of slices/admission.vs); `for x in vec.iter()`: vstd's slice iterator
+//   R7a stubs (verified elsewhere with the SAME contract text; tools/stub_sync.py reports no difference): Schedule::tour_of,
+//            Schedule::update_depot_usage (depot_usage), Schedule::vehicle_type_of, Schedule::update_transitions_and_violation_fast
+//            (sched_guard), Tour::replace_start_depot, Tour::replace_end_depot (tour_mod), Tour::start_depot, Tour::end_depot
+//            (env/tour_accessors.vs); env/time_ops.vs, env/model_fns.vs, env/dist_ops.vs included trusted
+//   A-im     env/im_shim.vs (im::HashMap new / get / insert / clone), env/schedule_shim.vs (opaque im::HashSet + clone); in
+//            env/depot_ops_shim.vs COPIED from env/depot_usage_shim.vs (which clashes with env/schedule_shim.vs: module im_set,
+//            type Vehicle; and with env/sched_guard_shim.vs: `keys`): im::HashSet {new, insert, remove}, im::HashMap `entry` +
+//            Entry::or_insert, and the depot-usage vocabulary (sp_spawned .. lemma_usage_exact_step);  NEW: im::HashMap::get_mut
+//            (Option of a reference INTO the map: the final map is the old one with the key bound to the final value)
+//   A-derive derived Clone of Tour and of TransitionCycle are structural (env/solution_types.vs is copied into this file instead of
+//            included, because the derive of Tour must be dropped to give `tour.clone()` a specification)
+//   A-index  depot_nodes_ok (precondition): network.end_depot_nodes / start_depot_nodes hold EndDepot / StartDepot nodes of the
+//            network (how Network::new fills them; not proved in slice network_new)
+//   A-counter (magnitudes, stated as PRECONDITIONS over uninterpreted atoms, no caller can discharge them):
+//            rebuilt_small / rebuilt_all_small: the violation of a transition built by Transition::new_fast is in [0, 2^41 * number of
+//            listed vehicles]; dp_counter_ok: the maintenance counter of an improved tour is within +-2^40 (needed by tour_ok in the
+//            precondition of update_transitions_and_violation_fast)
+//   plus env/broadcast_model.vs (key model of the index types), A-len (tour_len_ok), Network::wf.
+//
+// PRECONDITIONS the caller must guarantee (env/depot_ops_shim.vs, each explained there):
+//   * dp_ok (all but recompute_transitions_for): Network::wf; depot_nodes_ok; sched_vehicles is duplicate-free, has at most 2^17
+//     entries and lists exactly the vehicles with a tour; every such vehicle is stored under its own id and has a valid real tour
+//     of the schedule's network with exact caches (the `unwrap`s of tour_of / last_non_depot / replace_*_depot / start_depot);
+//     tours' costs <= costs <= 2^61; usage_exact for the input (the `.get_mut(..).unwrap().0.remove(..).unwrap()` of improve_depots
+//     and the precondition of update_depot_usage);
+//   * rc_base (reassign_end_depots_greedily, recompute_transitions_for, improve_depots(None)): the network's vehicle types are
+//     duplicate-free and are exactly the keys of next_period_transitions (`.expect("Each vehicle type must be a key in
+//     transitions.")`); every listed type is one of them and has an id list (`.get(vehicle_type).unwrap()`); every listed id has a tour
+//     (`tours.get(vehicle_id).unwrap()` in new_fast); C09: maintenance_violation == sum of the transitions' violations; magnitudes:
+//     each old violation <= 2^41 * vehicles of the transition, at most 2^18 vehicles in old transitions and id lists together;
+//   * improve_depots: the network has an end depot node; Some(list): listed_ok -- the listed vehicles have tours ("Panics if a
+//     vehicle is not a real vehicle"), the list has at most 2^17 entries and NO DUPLICATES (see finding below); dp_transitions_ok (the
+//     old-schedule clauses of upd_pre: C15 / C10 / C09 for the rotation cycles; real vehicles have Vehicle-kind ids, tours and a type
+//     with a transition);
+//   * improve_depots_of_tour: Network::wf, depot_nodes_ok, an end depot exists; the tour is a valid real tour of the network with
+//     exact caches.
+//
+// NOT covered:
+//   * WHICH depot is chosen (nearest / available): only membership in the network's depot node lists; depot capacities (C02);
+//     the panic `expect("There should be at least the overflow depot available.")` inside find_best_start_depot_for_spawning;
+//   * what Transition::new_fast builds (C15 / C10 for the rebuilt transitions), see A-stub;
+//   * that the results satisfy dp_ok / rc_base / dp_transitions_ok again beyond what the postconditions state; error message texts;
+//   * improve_depots(Some(list)) with a vehicle listed twice: the first loop's second `.remove(vehicle_id).unwrap()` panics
+//     (`called Option::unwrap() on a None value`, modifications.rs:657; confirmed by a cargo test on HEAD).  The doc comment only
+//     documents the panic for non-real vehicles; the callers in solver/ never pass duplicates.  Stated as precondition (listed_ok).
 #![feature(allocator_api)]
 use vstd::prelude::*;
 use std::ops::Add;
